@@ -249,6 +249,8 @@ contract(
     ghosts={"M": PYINT, "UB": PYINT},
     i64=False,
     attrs={"instance.tour_length_upper_bound": "UB"},      # the frequency table is allocated natively: np.zeros(UB + 1, DEFAULT_INT)
+    asserts={"after assign h #0": [tag("C06 C13", "frequency-table-holds-0..UB", "len(h) == UB + 1 and dtype_hi(h) == 2**63 - 1"
+                                       " and forall(k, 0, UB + 1, h[k] == 0)")]},
     summaries=_fea_summaries,
     opaque={"register": _register, "should_terminate": _should_terminate, "ri": _ri},
     calls={"register": {"d": "instance", "n": "n"}, "rev_if_h_not_worse": {"M": "M", "UB": "UB"}},
